@@ -254,6 +254,11 @@ func evalPair(rc *rec, w Witness) (status, key, what string) {
 	}
 	rc.say("  Hash(G) = %q", hg)
 	rc.say("  Hash(H) = %q", hh)
+	if w.Class == "ref-retarget" && ref.Rel == "equal" {
+		// old and new target are bisimilar: whether shared and copied sub-graphs hash
+		// alike is not settled by the documented rules; observed only
+		return "ambiguous", "retargeted-reference-to-bisimilar-type", fmt.Sprintf("hashes equal=%v", hg == hh)
+	}
 	switch ref.Rel {
 	case "ambiguous":
 		return "ambiguous", ref.Class, fmt.Sprintf("hashes equal=%v", hg == hh)
